@@ -37,6 +37,9 @@ func checkC01(p *Prog, r *Report) {
 	ruleTA(p, r, fs, cont)
 	ruleRecur(p, r, fs)
 	r.Floor("RECUR", 2)
+	if r.Tier == "thorough" {
+		bceCrossRef(p, r, fs)
+	}
 	r.Floor("EXP", 1)
 	r.Floor("REC", 4)
 	r.Floor("BND", 150)
